@@ -1,5 +1,6 @@
 """C06 — declaration-level gas and QA detectors flag exactly their documented pattern (DESIGN 5/C06, section 8.2)."""
 from runner import Ob
+from rules import depend
 import sites as S
 import summary
 from rules import detectors as D
@@ -28,12 +29,16 @@ META = {
                    "loop is left early.",
     "assumptions": ["state-variable names are unique within the file (property quantifier): the name-keyed table does not merge distinct variables",
                     "specs/detectors.spec (DESIGN section 8.2) is the oracle"],
-    "floors": {"R06.must": 6, "R06.mustnot": 6, "R06.isolate.loop": 6},
+    "floors": {"R06.walker": 1, "R06.must": 6, "R06.mustnot": 6, "R06.isolate.loop": 6},
 }
 
 
 def run(ctx, crate):
     obs = []
+    # occurrences count wherever they are nested: inherited from C01 (the search reaches every syntactic position)
+    obs.append(depend.inherited(ctx, crate, "R06.walker", "analyzer::ast::walk_node_for_targets", "the search reaches every nested position (C01's obligations on the walker)",
+                                "C01", lambda o: o.rule in ("R01.children", "R01.order", "R01.once", "R01.uncond", "R01.preorder", "R01.loops", "R01.entry"),
+                                example="the pattern inside !( .. ) or inside a catch body"))
     spec = speccmp.load_spec()
     sm = summary.Summ(crate)
     disp = D.all_dispatch(crate)
